@@ -37,3 +37,58 @@ Theorem C20_reconcile_keeps_the_others :
 Proof. exact reconcile_managed_spec. Qed.
 Print Assumptions C20_reconcile_keeps_the_others.
 
+
+(* ---- reconciling records with a schema in which fields turned atomic (proofs in
+   Proofs/Reconcile{Base,Laws}.v).  [reconcile_ref] (Spec/TypeAt.v) replaces every path
+   by its outermost non-root prefix whose type is atomic.  Hypotheses beyond schema_ok:
+   [walkable] -- every reference reached resolves to an atom with exactly one member and
+   list element types are non-empty; the root reference is non-empty and not itself
+   atomic; every member path is typed by the schema; no schemaless (untyped deduced) map
+   is reached.  Without them the statement is false (third theorem). ---- *)
+From SMD Require Import Model.Schema Model.Walk Model.Reconcile Spec.TypeAt Proofs.SchemaOk Proofs.ReconcileLaws.
+Theorem C20_reconcile_exact :
+  forall (s : schema) (R : typeref -> Prop) (tr : typeref) (fs : pset),
+         schema_ok s R ->
+         R tr ->
+         ps_ok fs = true ->
+         typed_paths s tr fs ->
+         (forall (tr' : typeref) (m : mapT),
+          R tr' ->
+          resolve s tr' = Some (Atom None None (Some m)) -> is_untyped_deduced_map m = false) ->
+         walkable s R ->
+         is_empty_tr tr = false ->
+         is_atomic_type s tr = false ->
+         match reconcile_field_set s tr fs with
+         | Some (Some out) =>
+             ps_ok out = true /\
+             (forall p : path,
+              wf_path p = true ->
+              p <> [] -> ps_has p out = pmem p (reconcile_ref s tr (ps_elems fs)))
+         | Some None => forall p : path, In p (ps_elems fs) -> reconcile_path s tr p = p
+         | None => False
+         end.
+Proof. exact reconcile_exact. Qed.
+Print Assumptions C20_reconcile_exact.
+
+Theorem C20_reconcile_idempotent :
+  forall (s : schema) (R : typeref -> Prop) (tr : typeref) (fs out : pset),
+         schema_ok s R ->
+         R tr ->
+         ps_ok fs = true ->
+         typed_paths s tr fs ->
+         (forall (tr' : typeref) (m : mapT),
+          R tr' ->
+          resolve s tr' = Some (Atom None None (Some m)) -> is_untyped_deduced_map m = false) ->
+         walkable s R ->
+         is_empty_tr tr = false ->
+         is_atomic_type s tr = false ->
+         reconcile_field_set s tr fs = Some (Some out) ->
+         reconcile_field_set s tr out = Some None.
+Proof. exact reconcile_idempotent. Qed.
+Print Assumptions C20_reconcile_idempotent.
+
+(* non-vacuity: a schema with an atomic map field, an atomic list field and a set *)
+Theorem C20_reconcile_example :
+  exists out, reconcile_field_set ReconcileLaws.Examples.ex_s ReconcileLaws.Examples.ex_root ReconcileLaws.Examples.ex_fs = Some (Some out).
+Proof. eexists. vm_compute. reflexivity. Qed.
+Print Assumptions C20_reconcile_example.
